@@ -97,9 +97,10 @@ impl GenCfg {
             _ => (rng.range(21, 60) as usize, rng.range(41, 200) as usize),
         };
         // one run in a hundred is large: thresholds on width, depth, node count, free-list length
-        let huge = rng.chance(1, 60);
+        // (read-side properties look at every start node of the big forest: they get more of them)
+        let huge = rng.chance(1, if matches!(prop, "C02" | "C09" | "C14") { 30 } else { 60 });
         if huge {
-            max_live = rng.range(80, 400) as usize;
+            max_live = if rng.coin() { rng.range(80, 300) } else { rng.range(260, 450) } as usize;
             steps = rng.range(300, 1500) as usize;
         }
         // shape bias: random attachment alone almost never gives a node 10 children or depth 10
@@ -301,6 +302,13 @@ impl GenCfg {
             w[K::New as usize] = w[K::New as usize].max(4) * 2;
             w[K::Clear as usize] = w[K::Clear as usize].min(1);
             w[K::CycleSlot as usize] = w[K::CycleSlot as usize].min(1);
+            w[K::RemoveSubtree as usize] = w[K::RemoveSubtree as usize].min(2);
+            if shape == 2 {
+                // a deep chain is cut by every move or detach on its path: let it grow first
+                w[K::Insert as usize] /= 6;
+                w[K::Detach as usize] = w[K::Detach as usize].min(1);
+                w[K::Remove as usize] = w[K::Remove as usize].min(3);
+            }
         }
         for r in rel_w.iter_mut() {
             match rng.below(8) {
